@@ -246,8 +246,18 @@ def e2e_one(samp, c):
             bad.append("calibration block not fully sampled")
         out["calib_points"] = int(np.sum(blk & inside))
         if c["crop"] and np.any(re[~inside] != 0):
-            bad.append("sample outside the ellipse")
+            bad.append("sample outside the region r < 1 kept by the crop")
         out["outside_points"] = int(np.sum(~inside))
+        if c["crop"]:
+            # the TRUE inscribed ellipse on the code's own grid convention: ((x - nx/2)/(nx/2))^2 + ((y - ny/2)/(ny/2))^2 < 1.
+            # It is evaluated with the code's expression for calib = (0, 0), for which the two regions coincide bit for bit.
+            ell = radius_field(c["ny"], c["nx"], 0, 0) < 1
+            n_out = int(np.sum(re[~ell] != 0))
+            out["outside_true_ellipse"] = n_out
+            if n_out:
+                yy, xx = np.argwhere((re != 0) & ~ell)[0]
+                bad.append("ellipse: %d samples outside the inscribed ellipse, e.g. mask[%d, %d] (calib %s)" % (
+                    n_out, yy, xx, "non-zero: the crop uses calib-shifted coordinates" if (c["cy"] or c["cx"]) else "= (0, 0)"))
         # same arguments + seed => identical mask
         if c["seed"] is not None:
             np.random.seed((c["prior"] * 7 + 3) % (2 ** 31))
@@ -517,7 +527,16 @@ def run(ctx):
         ctx.notes.append("search correspondence could not run: %s" % str(e)[:500])
     ctx.obligation("corr:poisson slope search == model (%d searches)" % len(search_cases), s_ok and not sfail)
     ctx.obligation("corr:crop+sum == model (%d masks)" % len(crop_cases), s_ok and not cfail)
-    ctx.obligation("oracle:poisson end-to-end (%d calls: %d returned, %d ValueError)" % (len(e2e_cases), n_ret, n_val), not e2e_bad)
+    known_only = lambda c, r: all(b.startswith("ellipse:") and (c["cy"] or c["cx"]) for b in r["bad"])      # noqa
+    hard_bad = [(c, r) for c, r in e2e_bad if not known_only(c, r)]
+    ctx.obligation("oracle:poisson end-to-end (%d calls: %d returned, %d ValueError)" % (len(e2e_cases), n_ret, n_val), not hard_bad)
+    n_ell = sum(1 for c, r in e2e_bad if any(b.startswith("ellipse:") for b in r["bad"]) and (c["cy"] or c["cx"]))
+    # discharged when the only masks with samples outside the true ellipse belong to the listed known finding (calib != 0);
+    # a sample outside it with calib == (0, 0) -- where the code's region IS the ellipse -- fails the obligation
+    ctx.obligation("oracle:no sample outside the true inscribed ellipse when crop_corner (except the listed known finding "
+                   "C18:crop-ellipse-with-calib: %d masks with calib != 0)" % n_ell,
+                   not any(b.startswith("ellipse:") and not (c["cy"] or c["cx"]) for c, r in e2e_bad for b in r["bad"]))
+    ctx.coverage["masks_with_samples_outside_true_ellipse"] = n_ell
     ctx.obligation("coverage:at least half of the valid requests return a mask", n_ret * 2 >= sum(1 for c in e2e_cases if c["accel"] > 1))
     ctx.coverage["rule"] = (
         "kernel: seeded shapes 4..16 (square/rectangular), calib 0..n/2 incl. odd, slopes 0.5..max(n), max_attempts 1..30, seeds; "
@@ -525,7 +544,7 @@ def run(ctx):
         "seeded shapes 16..128 square/rectangular, accel in (1,12], calib 0..n/3, tol 1e-3..0.5, 6 dtypes, crop on/off, seeds incl. None, "
         "random prior numpy RNG state; non-trivial = a mask was returned; distinct = distinct argument tuples")
     ctx.coverage["disagreements_model_vs_impl"] = len(failing) + len(sfail) + len(cfail)
-    ctx.coverage["disagreements_oracle_vs_impl"] = len(e2e_bad) + len(py_bad)
+    ctx.coverage["disagreements_oracle_vs_impl"] = len(hard_bad) + len(py_bad)
     ctx.coverage["e2e_returned"] = n_ret
     ctx.coverage["e2e_valueerror"] = n_val
     ctx.coverage["e2e_max_seconds"] = max([r.get("seconds", 0) for r in res] or [0])
@@ -535,6 +554,10 @@ def run(ctx):
         for b in r["bad"]:
             key = "nontermination" if r["status"] == "timeout" else b.split(" ")[0]
             sig = "C18:poisson-nontermination" if r["status"] == "timeout" else "C18:e2e:" + key
+            if b.startswith("ellipse:"):
+                # with calib != 0 the code crops a rounded rectangle that contains the ellipse: recorded as an OPEN known
+                # finding (not going to be repaired); with calib == (0, 0) the two regions coincide and this is a hard violation
+                sig = "C18:crop-ellipse-with-calib" if (c["cy"] or c["cx"]) else "C18:crop-ellipse"
             if sig in seen:
                 continue
             seen.add(sig)
@@ -612,7 +635,10 @@ TRUSTED = [
 PROVED = ["see coq/props/Prop_C18.v (theorem list in obligation_list)"]
 VALIDATED = ["numpy global RNG state untouched; same arguments + seed => same mask (run-time facts about numba's private generator)",
              "jitted kernel == pure-Python body (both satisfy the oracle; only py_func is replayed in Coq)",
-             "calibration block is inside r < 1 (hypothesis of the crop theorem; checked on every returned mask)"]
+             "calibration block is inside r < 1 (hypothesis of the crop theorem; checked on every returned mask)",
+             "crop_corner keeps exactly {r < 1} with r from calib-shifted coordinates (proved: 0 wherever r >= 1); this is the true "
+             "inscribed ellipse only for calib = (0, 0) -- with calib != 0 samples outside the ellipse occur (open known finding "
+             "C18:crop-ellipse-with-calib)"]
 
 
 if __name__ == "__main__" and len(sys.argv) > 1 and sys.argv[1] == "--worker":
